@@ -23,9 +23,11 @@ The base storage must not change.
 import os
 import random
 import tempfile
+import time
 import weakref
 
 import zope.interface
+from persistent.TimeStamp import TimeStamp
 
 import ZODB.BaseStorage
 import ZODB.blob
@@ -122,6 +124,8 @@ class DemoStorage(ConflictResolvingStorage):
         self._issued_oids = set()
         self._stored_oids = set()
         self._resolved = []
+        # Time (as a tid) of the latest pack of the changes made through us.
+        self._packed = ZODB.utils.z64
 
         self._commit_lock = ZODB.utils.Lock()
         self._transaction = None
@@ -253,6 +257,14 @@ class DemoStorage(ConflictResolvingStorage):
                     while t:
                         end_tid = t[1]
                         t = self.changes.loadBefore(oid, end_tid)
+                    if end_tid <= self._packed:
+                        # A pack may have removed earlier revisions from
+                        # the changes: the oldest one left need not be
+                        # the one that superseded the base's record, and
+                        # the record asked for may be one of the removed
+                        # ones.  As after any pack, there is no answer
+                        # for a reader that old.
+                        return None
                     result = result[:2] + (
                         end_tid if end_tid != maxtid else None,
                     )
@@ -324,6 +336,12 @@ class DemoStorage(ConflictResolvingStorage):
                 self._next_oid = random.randint(1, 1 << 62)
 
     def pack(self, t, referencesf, gc=None):
+        result = self._pack(t, referencesf, gc)
+        self._packed = max(
+            self._packed, TimeStamp(*time.gmtime(t)[:5] + (t % 60,)).raw())
+        return result
+
+    def _pack(self, t, referencesf, gc):
         if gc is None:
             if self._temporary_changes:
                 # Collecting garbage in the changes alone is only right
